@@ -21,7 +21,12 @@ LEVEL = "model_checking"
 FAMS = {1: "thr", 2: "edge", 3: "pole", 4: "eq", 5: "mer", 6: "lonedge", 7: "sweep",
         8: "rand", 9: "sedge"}
 STRUCTURAL = {1, 2, 3, 4, 5, 6, 9}
-PAR = 4            # CPU-heavy processes at a time
+PAR = 4            # CPU-heavy processes at a time (quick tier)
+PAR_THOROUGH = 8
+
+
+def par(run):
+    return PAR_THOROUGH if run.tier == "thorough" else PAR
 
 
 def nltable_selfcheck():
@@ -55,7 +60,7 @@ def gen_vectors(run, module, to_vector, nslices, name):
         r.out = ""          # drop the bulky stdout
         return path, vecs, r
 
-    with cf.ThreadPoolExecutor(max_workers=min(PAR, nslices)) as ex:
+    with cf.ThreadPoolExecutor(max_workers=min(par(run), nslices)) as ex:
         outs = list(ex.map(one, range(nslices)))
     for path, vecs, r in outs:
         paths.append(path)
@@ -82,7 +87,7 @@ def replay_and_validate(run, binmode, trace_module, vec_paths, name):
         return events, why, r
 
     core.build_rs("c04")
-    with cf.ThreadPoolExecutor(max_workers=min(PAR, len(vec_paths))) as ex:
+    with cf.ThreadPoolExecutor(max_workers=min(par(run), len(vec_paths))) as ex:
         return list(ex.map(one, enumerate(vec_paths)))
 
 
@@ -104,14 +109,14 @@ def check(run, vec_paths=None):
     note = nltable_selfcheck()
     tier = run.tier
     # M
-    m = core.tlc_ok("mc/MC_CPR", cfg=cfg_for("mc/MC_CPR", tier), workers=PAR, timeout=3000, xmx="3g",
+    m = core.tlc_ok("mc/MC_CPR", cfg=cfg_for("mc/MC_CPR", tier), workers=par(run), timeout=3000, xmx="3g",
                     env={"VERIF_SEED": run.seed})
     run.add_tlc(m)
     # G
     vec_cov = Counter()
     nvec = 0
     if vec_paths is None:
-        nslices = 4 if tier == "quick" else 8
+        nslices = 4 if tier == "quick" else 16
         vec_paths, gres = gen_vectors(run, "gen/Gen_CPR04", to_vector04, nslices, "c04")
         seen = set()
         for vecs, r in gres:
